@@ -647,8 +647,12 @@ class OpenSystem:
             
                 dsum = 0.0
                 
+                # energies are counted from the lowest level, so that the
+                # Boltzmann factors cannot under/overflow to 0/0 or inf/inf
+                emin = numpy.amin(numpy.real(numpy.diag(H.data)))
                 for n in range(H._data.shape[0]):
-                    dat[n,n] = numpy.exp(-H.data[n,n]/(kB_intK*T))
+                    dat[n,n] = numpy.exp(-(numpy.real(H.data[n,n])-emin)
+                                         /(kB_intK*T))
                     dsum += dat[n,n]
 
                 dat *= 1.0/dsum
